@@ -1,1 +1,472 @@
-import EventppVerif.Util.Heter
+import EventppVerif.Util.HeterAux
+/-
+  Property C14 — heterogeneous classes: prototype selection, routing and queued events.
+
+  "In HeterCallbackList, HeterEventDispatcher and HeterEventQueue a callback is bound to the first
+   listed prototype it can be called with, and an invocation, dispatch or enqueue selects the first
+   listed prototype callable with its argument types and reaches exactly the callbacks bound to that
+   prototype, in their order, once each, with intact arguments.  Queued events of different
+   prototypes are each consumed exactly once in FIFO order by process and processOne, and processIf
+   examines only events of prototypes its predicate is callable with, leaving every other event
+   untouched, intact and in place."
+
+  Model (Util/Heter.lean): a `Sig` lists `nproto` prototypes and three callable matrices
+  (`cbOk kind p`: a callback of kind `kind` can be called with the arguments of prototype `p`;
+  `argOk p kind`: prototype `p` can be called with arguments of kind `kind`; `predOk f p`: a
+  processIf predicate of kind `f` can be called with the arguments of prototype `p`); the harness
+  measures them from the compiler.  A world `HW` has one Spec-level callback list (`SList`, C01/C02)
+  per (event key, prototype) at `lists (slot key p)`, a queue of `HEvent`s (sequence number, key,
+  `tag` = the prototype index the event was filed under, argument kind and value), the counters
+  `nextId` / `nextSeq` and the ghost flag `confused`.  `step sg w op` performs one public operation
+  (`HOp`) and returns the new world and the observable events (`HEv.call key p handle cb kind val`
+  for a listener call, `HEv.pred pkind kind val` for a predicate call, `HEv.res s` for the result of
+  the operation); `run` performs a sequence (non-re-entrant histories).
+
+  All theorems quantify over every `Sig`, every world (or every history from the empty world where
+  stated) and all keys, kinds, values, callbacks.  All proofs are in Util/HeterAux.lean or below.
+  (The slots of two different (key, prototype) pairs are different as long as at most 16 prototypes
+  are listed: `C14_slot_inj`.)
+-/
+namespace Evp.Heter
+open Evp
+
+/-! ## 1. selection -/
+
+/-- `firstMatch n ok` is the least index `p < n` with `ok p`, and `none` iff there is none;
+    `nextMatch n ok p` is the least index `p' < n` greater than `p` with `ok p'`, and `none` iff
+    there is none. -/
+theorem C14_select (n : Nat) (ok : Nat → Bool) :
+    (∀ p, firstMatch n ok = some p ↔ p < n ∧ ok p = true ∧ ∀ q < p, ok q = false) ∧
+    (firstMatch n ok = none ↔ ∀ q < n, ok q = false) ∧
+    (∀ p p', nextMatch n ok p = some p' ↔
+      p' < n ∧ p < p' ∧ ok p' = true ∧ ∀ q, p < q → q < p' → ok q = false) ∧
+    (∀ p, nextMatch n ok p = none ↔ ∀ q, p < q → q < n → ok q = false) :=
+  ⟨firstMatch_some n ok, firstMatch_none n ok, nextMatch_some n ok, nextMatch_none n ok⟩
+
+/-- distinct (key, prototype) pairs have distinct listener lists (at most 16 prototypes) -/
+theorem C14_slot_inj (key key' p p' : Nat) (hp : p < 16) (hp' : p' < 16)
+    (h : slot key p = slot key' p') : key = key' ∧ p = p' :=
+  slot_inj hp hp' h
+
+/-! ## 2. binding a callback -/
+
+/-- `appendListener` / `append` of a callback of kind `kind` for event `key`: if `p` is the first
+    listed prototype the callback can be called with, the entry `⟨w.nextId, cb⟩` is appended to the
+    list of (key, p), every other list (every other prototype of `key`, every other key) is
+    unchanged, the queue is unchanged and the handle returned is `w.nextId`.  If the callback can be
+    called with no listed prototype, nothing changes. -/
+theorem C14_bind (sg : Sig) (w : HW) (key kind : Nat) (cb : Cb) :
+    (∀ p, p < sg.nproto → sg.cbOk kind p = true → (∀ q < p, sg.cbOk kind q = false) →
+      (step sg w (.listen key kind cb)).1.lists (slot key p) =
+          w.lists (slot key p) ++ [⟨w.nextId, cb⟩] ∧
+      (∀ s, s ≠ slot key p → (step sg w (.listen key kind cb)).1.lists s = w.lists s) ∧
+      (step sg w (.listen key kind cb)).1.nextId = w.nextId + 1 ∧
+      (step sg w (.listen key kind cb)).1.queue = w.queue ∧
+      (step sg w (.listen key kind cb)).1.nextSeq = w.nextSeq ∧
+      (step sg w (.listen key kind cb)).2 = [.res s!"h{w.nextId}"]) ∧
+    ((∀ q < sg.nproto, sg.cbOk kind q = false) →
+      step sg w (.listen key kind cb) = (w, [.res "nomatch"])) := by
+  constructor
+  · intro p h1 h2 h3
+    have hfm := (firstMatch_some sg.nproto (fun p => sg.cbOk kind p) p).2 ⟨h1, h2, h3⟩
+    rw [step_listen_some sg w key kind cb p hfm]
+    refine ⟨?_, ?_, rfl, rfl, rfl, rfl⟩
+    · show (upd w.lists (slot key p) _) (slot key p) = _
+      rw [upd_get, if_pos rfl]; rfl
+    · intro s hs
+      show (upd w.lists (slot key p) _) s = _
+      rw [upd_get, if_neg hs]
+  · intro h
+    exact step_listen_none sg w key kind cb ((firstMatch_none _ _).2 h)
+
+/-! ## 3. routing an invocation / dispatch -/
+
+/-- `dispatch key (args of kind `kind`, value `val`)`: if `p` is the first listed prototype callable
+    with the argument kind, the events are exactly one call per entry of the list of (key, p), in
+    list order, each carrying the same `kind val` (arguments intact), followed by the result; the
+    world is unchanged.  If no prototype is callable nothing is called. -/
+theorem C14_route (sg : Sig) (w : HW) (key kind val : Nat) :
+    (∀ p, p < sg.nproto → sg.argOk p kind = true → (∀ q < p, sg.argOk q kind = false) →
+      step sg w (.dispatch key kind val) =
+        (w, (w.lists (slot key p)).map (fun e => HEv.call key p e.id e.cb kind val)
+              ++ [.res "unit"])) ∧
+    ((∀ q < sg.nproto, sg.argOk q kind = false) →
+      step sg w (.dispatch key kind val) = (w, [.res "unit"])) := by
+  constructor
+  · intro p h1 h2 h3
+    have hfm := (firstMatch_some sg.nproto (fun p => sg.argOk p kind) p).2 ⟨h1, h2, h3⟩
+    rw [step_dispatch, dispatchEv_of_some sg w key kind val p hfm]
+  · intro h
+    rw [step_dispatch, dispatchEv_of_none sg w key kind val ((firstMatch_none _ _).2 h)]; rfl
+
+/-- … hence no entry of any other list is called and no argument is altered: every call event of a
+    dispatch is a call of an entry of the list of (key, first callable prototype) with the given
+    arguments. -/
+theorem C14_route_only (sg : Sig) (w : HW) (key kind val : Nat)
+    (key' p' : Nat) (h : Hd) (cb : Cb) (kind' val' : Nat)
+    (hmem : HEv.call key' p' h cb kind' val' ∈ (step sg w (.dispatch key kind val)).2) :
+    key' = key ∧ kind' = kind ∧ val' = val ∧ p' < sg.nproto ∧ sg.argOk p' kind = true ∧
+      (∀ q < p', sg.argOk q kind = false) ∧ ⟨h, cb⟩ ∈ w.lists (slot key p') := by
+  cases hfm : firstMatch sg.nproto (fun p => sg.argOk p kind) with
+  | none =>
+    rw [step_dispatch, dispatchEv_of_none sg w key kind val hfm] at hmem
+    rcases List.mem_singleton.1 hmem with hmem
+    cases hmem
+  | some p =>
+    obtain ⟨h1, h2, h3⟩ := (firstMatch_some _ _ _).1 hfm
+    rw [step_dispatch, dispatchEv_of_some sg w key kind val p hfm] at hmem
+    rcases List.mem_append.1 hmem with hmem | hmem
+    · rw [List.mem_map] at hmem
+      obtain ⟨e, he, heq⟩ := hmem
+      cases heq
+      exact ⟨rfl, rfl, rfl, h1, h2, h3, he⟩
+    · rcases List.mem_singleton.1 hmem with hmem
+      cases hmem
+
+/-! ## 4. enqueue -/
+
+/-- `enqueue key (args of kind `kind`, value `val`)` appends exactly one event at the back of the
+    queue: fresh sequence number, the given key / kind / value, filed under the first listed
+    prototype callable with the argument kind; listener lists are unchanged.  Without a callable
+    prototype nothing changes. -/
+theorem C14_enqueue_tag (sg : Sig) (w : HW) (key kind val : Nat) :
+    (∀ p, p < sg.nproto → sg.argOk p kind = true → (∀ q < p, sg.argOk q kind = false) →
+      (step sg w (.enqueue key kind val)).1.queue =
+          w.queue ++ [{ seq := w.nextSeq, key := key, tag := p, kind := kind, val := val }] ∧
+      (step sg w (.enqueue key kind val)).1.nextSeq = w.nextSeq + 1 ∧
+      (step sg w (.enqueue key kind val)).1.lists = w.lists ∧
+      (step sg w (.enqueue key kind val)).1.nextId = w.nextId ∧
+      (step sg w (.enqueue key kind val)).2 = [.res "unit"]) ∧
+    ((∀ q < sg.nproto, sg.argOk q kind = false) →
+      step sg w (.enqueue key kind val) = (w, [.res "nomatch"])) := by
+  constructor
+  · intro p h1 h2 h3
+    have hfm := (firstMatch_some sg.nproto (fun p => sg.argOk p kind) p).2 ⟨h1, h2, h3⟩
+    rw [step_enqueue_some sg w key kind val p hfm]
+    exact ⟨rfl, rfl, rfl, rfl, rfl⟩
+  · intro h
+    exact step_enqueue_none sg w key kind val ((firstMatch_none _ _).2 h)
+
+/-! ## 5. process / processOne: exactly once, FIFO -/
+
+/-- `process` on a non-empty queue empties it; its events are the concatenation, in queue order, of
+    the dispatch of every queued event (each exactly once, with its own key / kind / value),
+    followed by `true`.  On an empty queue it does nothing and returns `false`. -/
+theorem C14_process (sg : Sig) (w : HW) :
+    (w.queue ≠ [] →
+      step sg w .process =
+        ({ w with queue := [] },
+          w.queue.flatMap (fun e => dispatchEv sg w e.key e.kind e.val) ++ [.res "true"])) ∧
+    (w.queue = [] → step sg w .process = (w, [.res "false"])) :=
+  ⟨step_process_ne sg w, step_process_nil sg w⟩
+
+/-- `processOne` consumes exactly the head of the queue (the oldest event), dispatches it once and
+    leaves the rest in place. -/
+theorem C14_processOne (sg : Sig) (w : HW) :
+    (∀ e rest, w.queue = e :: rest →
+      step sg w .processOne =
+        ({ w with queue := rest }, dispatchEv sg w e.key e.kind e.val ++ [.res "true"])) ∧
+    (w.queue = [] → step sg w .processOne = (w, [.res "false"])) :=
+  ⟨step_processOne_cons sg w, step_processOne_nil sg w⟩
+
+/-- What the invariant `WF sg w` says. -/
+theorem C14_WF_def (sg : Sig) (w : HW) : WF sg w ↔
+    (w.queue.map (·.seq)).Pairwise (· < ·) ∧
+    (∀ e ∈ w.queue, e.seq < w.nextSeq) ∧
+    (∀ e ∈ w.queue, firstMatch sg.nproto (fun p => sg.argOk p e.kind) = some e.tag) ∧
+    (∀ s, ((w.lists s).map (·.id)).Pairwise (· < ·)) ∧
+    (∀ s, ∀ e ∈ w.lists s, e.id < w.nextId) ∧
+    w.confused = false :=
+  ⟨fun ⟨a, b, c, d, e, f⟩ => ⟨a, b, c, d, e, f⟩, fun ⟨a, b, c, d, e, f⟩ => ⟨a, b, c, d, e, f⟩⟩
+
+/-- The invariant is preserved by every operation and every history. -/
+theorem C14_WF_step (sg : Sig) (w : HW) (h : WF sg w) (op : HOp) : WF sg (step sg w op).1 :=
+  WF_step h op
+
+theorem C14_WF_run (sg : Sig) (w : HW) (h : WF sg w) (ops : List HOp) : WF sg (run sg w ops).1 :=
+  WF_run h ops
+
+/-- FIFO, globally: after any history from the empty world the queue is in enqueue order (the
+    sequence numbers are strictly increasing, hence distinct, and all issued), every queued event
+    is filed under the first listed prototype callable with its argument kind (and that index is
+    `< nproto`), and the handles in every listener list are strictly increasing (so "once per
+    entry" is "once per handle").  Together with `C14_process`, `C14_processOne` and
+    `C14_processIf_scope` (every operation removes a sub-list of the queue and dispatches exactly
+    what it removes): every enqueued event is consumed at most once, oldest first. -/
+theorem C14_fifo (sg : Sig) (ops : List HOp) :
+    ((run sg {} ops).1.queue.map (·.seq)).Pairwise (· < ·) ∧
+    (∀ e ∈ (run sg {} ops).1.queue, e.seq < (run sg {} ops).1.nextSeq) ∧
+    (∀ e ∈ (run sg {} ops).1.queue,
+      e.tag < sg.nproto ∧ sg.argOk e.tag e.kind = true ∧ ∀ q < e.tag, sg.argOk q e.kind = false) ∧
+    (∀ s, (((run sg {} ops).1.lists s).map (·.id)).Pairwise (· < ·)) := by
+  have h := WF_run (WF_init sg) ops
+  exact ⟨h.fifo, h.fresh, fun e he => (firstMatch_some _ _ _).1 (h.tagged e he), h.idsInc⟩
+
+/-- Every operation leaves a sub-list of the queue plus, for `enqueue`, one new event at the back:
+    nothing is reordered, duplicated or invented. -/
+theorem C14_queue_order (sg : Sig) (w : HW) (op : HOp) :
+    ((step sg w op).1.queue).Sublist w.queue ∨
+    ∃ e, (step sg w op).1.queue = w.queue ++ [e] := by
+  cases op with
+  | listen key kind cb =>
+    left
+    cases hfm : firstMatch sg.nproto (fun p => sg.cbOk kind p) with
+    | none => rw [step_listen_none _ _ _ _ _ hfm]; exact List.Sublist.refl _
+    | some p => rw [step_listen_some _ _ _ _ _ _ hfm]; exact List.Sublist.refl _
+  | remove key hd p => left; exact List.Sublist.refl _
+  | dispatch key kind val => left; exact List.Sublist.refl _
+  | enqueue key kind val =>
+    cases hfm : firstMatch sg.nproto (fun p => sg.argOk p kind) with
+    | none => left; rw [step_enqueue_none _ _ _ _ _ hfm]; exact List.Sublist.refl _
+    | some p => right; rw [step_enqueue_some _ _ _ _ _ _ hfm]; exact ⟨_, rfl⟩
+  | process =>
+    left
+    by_cases hq : w.queue = []
+    · rw [step_process_nil _ _ hq]; exact List.Sublist.refl _
+    · rw [step_process_ne _ _ hq]; exact List.nil_sublist _
+  | processOne =>
+    left
+    cases hq : w.queue with
+    | nil => rw [step_processOne_nil _ _ hq, hq]; exact List.Sublist.refl _
+    | cons e rest => rw [step_processOne_cons _ _ e rest hq]; exact List.sublist_cons_self _ _
+  | processIf pkind m r => left; exact step_processIf_queue_sublist sg w pkind m r
+
+/-- A queued event is dispatched to the listeners of the prototype it was filed under: in a
+    well-formed world the dispatch of a queued event `e` is exactly one call per entry of the list
+    of (e.key, e.tag), in order, with `e`'s own kind and value. -/
+theorem C14_queued_dispatch (sg : Sig) (w : HW) (h : WF sg w) (e : HEvent) (he : e ∈ w.queue) :
+    dispatchEv sg w e.key e.kind e.val =
+      (w.lists (slot e.key e.tag)).map (fun x => HEv.call e.key e.tag x.id x.cb e.kind e.val) :=
+  dispatchEv_of_some sg w e.key e.kind e.val e.tag (h.tagged e he)
+
+/-! ## 6. processIf -/
+
+/-- One pass of `doProcessIf` for prototype `p` over a queue `q`
+    (`ifPass … p q = (kept, evs, any)`):
+    (a) `kept` is a sub-list of `q` (order preserved, nothing duplicated or invented);
+    (b) every event filed under another prototype is kept, in place;
+    (c) the events removed are exactly those filed under `p` which the predicate accepts;
+    (d) every predicate call is for an event filed under `p` (with that event's kind and value);
+    (e) the other events of the pass are exactly the dispatches of the removed events, in order;
+    (f) `any` is `true` iff some event was removed. -/
+theorem C14_processIf_pass (sg : Sig) (w : HW) (pkind m r p : Nat) (q : List HEvent) :
+    ((ifPass sg w pkind m r p q).1).Sublist q ∧
+    q.filter (fun e => decide (e.tag ≠ p)) =
+      (ifPass sg w pkind m r p q).1.filter (fun e => decide (e.tag ≠ p)) ∧
+    (ifPass sg w pkind m r p q).1 =
+      q.filter (fun e => !(decide (e.tag = p) && predVal m r e.val)) ∧
+    (∀ ev ∈ (ifPass sg w pkind m r p q).2.1, ev.isPred = true →
+      ∃ e ∈ q, e.tag = p ∧ ev = HEv.pred pkind e.kind e.val) ∧
+    (ifPass sg w pkind m r p q).2.1.filter (fun ev => !ev.isPred) =
+      (q.filter (fun e => decide (e.tag = p) && predVal m r e.val)).flatMap
+        (fun e => dispatchEv sg w e.key e.kind e.val) ∧
+    ((ifPass sg w pkind m r p q).2.2 = true ↔ ∃ e ∈ q, e.tag = p ∧ predVal m r e.val = true) := by
+  refine ⟨?_, ?_, ifPass_kept .., fun ev h hp => ifPass_pred_mem _ _ _ _ _ _ _ _ h hp,
+    ifPass_evs_noPred .., ?_⟩
+  · rw [ifPass_kept]; exact List.filter_sublist
+  · rw [ifPass_kept, List.filter_filter]
+    apply List.filter_congr
+    intro e _
+    by_cases ht : e.tag = p <;> simp [removedBy, ht]
+  · rw [ifPass_any, List.any_eq_true]
+    constructor
+    · rintro ⟨e, he, hr⟩
+      simp only [removedBy, Bool.and_eq_true, decide_eq_true_eq] at hr
+      exact ⟨e, he, hr⟩
+    · rintro ⟨e, he, h1, h2⟩
+      exact ⟨e, he, by simp [removedBy, h1, h2]⟩
+
+/-- `Cand sg pkind m r q 0 p`: `p` is a listed prototype the predicate is callable with and some
+    event of `q` filed under `p` is accepted by the predicate. -/
+theorem C14_Cand_def (sg : Sig) (pkind m r : Nat) (q : List HEvent) (lb p : Nat) :
+    Cand sg pkind m r q lb p ↔
+      lb ≤ p ∧ p < sg.nproto ∧ sg.predOk pkind p = true ∧
+        ∃ e ∈ q, (decide (e.tag = p) && predVal m r e.val) = true :=
+  Iff.rfl
+
+/-- `processIf` with a predicate of kind `pkind` — scope:
+    (a) the new queue is a sub-list of the old one;
+    (b) the events filed under prototypes the predicate is NOT callable with are all kept, in
+        their original relative order (untouched, in place);
+    (c) every predicate call is for a queued event filed under a prototype the predicate IS
+        callable with, and carries that event's kind and value (intact);
+    (d) listener lists and counters are unchanged;
+    (e) the returned boolean is `true` iff something was removed (= dispatched). -/
+theorem C14_processIf_scope (sg : Sig) (w : HW) (pkind m r : Nat) :
+    ((step sg w (.processIf pkind m r)).1.queue).Sublist w.queue ∧
+    w.queue.filter (fun e => !sg.predOk pkind e.tag) =
+      (step sg w (.processIf pkind m r)).1.queue.filter (fun e => !sg.predOk pkind e.tag) ∧
+    (∀ ev ∈ (step sg w (.processIf pkind m r)).2, ev.isPred = true →
+      ∃ e ∈ w.queue, sg.predOk pkind e.tag = true ∧ ev = HEv.pred pkind e.kind e.val) ∧
+    ((step sg w (.processIf pkind m r)).1.lists = w.lists ∧
+      (step sg w (.processIf pkind m r)).1.nextId = w.nextId ∧
+      (step sg w (.processIf pkind m r)).1.nextSeq = w.nextSeq) ∧
+    (HEv.res "true" ∈ (step sg w (.processIf pkind m r)).2 ↔
+      (step sg w (.processIf pkind m r)).1.queue.length < w.queue.length) := by
+  refine ⟨step_processIf_queue_sublist sg w pkind m r, ?_,
+    fun ev h hp => step_processIf_pred sg w pkind m r ev h hp, ?_, ?_⟩
+  · rcases step_processIf_spec sg w pkind m r with ⟨h1, _, _⟩ | ⟨p, hc, _, h1, _⟩
+    · rw [h1]
+    · rw [h1]
+      show _ = List.filter _ (List.filter _ _)
+      rw [List.filter_filter]
+      apply List.filter_congr
+      intro e _
+      by_cases ht : e.tag = p
+      · rw [ht, hc.2.2.1]; rfl
+      · simp [removedBy, ht]
+  · rcases step_processIf_spec sg w pkind m r with ⟨h1, _, _⟩ | ⟨p, _, _, h1, _⟩
+    · rw [h1]; exact ⟨rfl, rfl, rfl⟩
+    · rw [h1]; exact ⟨rfl, rfl, rfl⟩
+  · have hres : HEv.res "true" ∈ (step sg w (.processIf pkind m r)).2 ↔
+        HEv.res "true" ∈ (step sg w (.processIf pkind m r)).2.filter (fun ev => !ev.isPred) := by
+      rw [List.mem_filter]
+      exact ⟨fun h => ⟨h, rfl⟩, fun h => h.1⟩
+    rw [hres]
+    rcases step_processIf_spec sg w pkind m r with ⟨h1, h2, _⟩ | ⟨p, hc, _, h1, h2⟩
+    · rw [h1, h2]
+      constructor
+      · intro h
+        rcases List.mem_singleton.1 h with h
+        exact absurd h (by decide)
+      · intro h; exact absurd h (Nat.lt_irrefl _)
+    · rw [h1, h2]
+      constructor
+      · intro _
+        show (List.filter _ w.queue).length < _
+        rw [List.length_filter_lt_length_iff_exists]
+        obtain ⟨_, _, _, e, he, hr⟩ := hc
+        exact ⟨e, he, by simp [hr]⟩
+      · intro _
+        exact List.mem_append_right _ (List.mem_singleton.2 rfl)
+
+/-- `processIf` — exact effect.  Either no listed prototype the predicate is callable with has a
+    queued event the predicate accepts: then the world is unchanged, nothing is dispatched and the
+    result is `false`.  Or `p` is the FIRST listed prototype the predicate is callable with that has
+    an accepted queued event: then exactly the accepted events filed under `p` are removed, every
+    other event (of `p` or of any other prototype) stays in place, the removed events are dispatched
+    exactly once each, in queue order, and the result is `true`.  (The events not shown by the
+    filter are the predicate calls, see `C14_processIf_scope` (c).) -/
+theorem C14_processIf_exact (sg : Sig) (w : HW) (pkind m r : Nat) :
+    ((step sg w (.processIf pkind m r)).1 = w ∧
+      (step sg w (.processIf pkind m r)).2.filter (fun ev => !ev.isPred) = [.res "false"] ∧
+      ∀ p, ¬ Cand sg pkind m r w.queue 0 p) ∨
+    (∃ p, Cand sg pkind m r w.queue 0 p ∧ (∀ p', p' < p → ¬ Cand sg pkind m r w.queue 0 p') ∧
+      (step sg w (.processIf pkind m r)).1 =
+        { w with queue :=
+            w.queue.filter (fun e => !(decide (e.tag = p) && predVal m r e.val)) } ∧
+      (step sg w (.processIf pkind m r)).2.filter (fun ev => !ev.isPred) =
+        (w.queue.filter (fun e => decide (e.tag = p) && predVal m r e.val)).flatMap
+            (fun e => dispatchEv sg w e.key e.kind e.val)
+          ++ [.res "true"]) :=
+  step_processIf_spec sg w pkind m r
+
+/-! ## 7. no type confusion -/
+
+/-- `confused` records a queued slot being read as the wrong type.  In this model a typed read of a
+    queued event happens only in `ifPass`, behind the test `e.tag = p` — which is what the repaired
+    `doProcessIf` does (the prototype index is read through `QueuedItemBase` before the slot is
+    re-typed) — and `process` / `processOne` dispatch through the event's own index.  So no
+    operation sets the flag, and it is `false` after every history. -/
+theorem C14_no_confusion (sg : Sig) :
+    (∀ w op, (step sg w op).1.confused = w.confused) ∧
+    (∀ ops, (run sg {} ops).1.confused = false) := by
+  constructor
+  · intro w op
+    cases op with
+    | listen key kind cb =>
+      cases hfm : firstMatch sg.nproto (fun p => sg.cbOk kind p) with
+      | none => rw [step_listen_none _ _ _ _ _ hfm]
+      | some p => rw [step_listen_some _ _ _ _ _ _ hfm]
+    | remove key hd p => rfl
+    | dispatch key kind val => rfl
+    | enqueue key kind val =>
+      cases hfm : firstMatch sg.nproto (fun p => sg.argOk p kind) with
+      | none => rw [step_enqueue_none _ _ _ _ _ hfm]
+      | some p => rw [step_enqueue_some _ _ _ _ _ _ hfm]
+    | process =>
+      by_cases hq : w.queue = []
+      · rw [step_process_nil _ _ hq]
+      · rw [step_process_ne _ _ hq]
+    | processOne =>
+      cases hq : w.queue with
+      | nil => rw [step_processOne_nil _ _ hq]
+      | cons e rest => rw [step_processOne_cons _ _ e rest hq]
+    | processIf pkind m r =>
+      rw [step_processIf_eq]
+      split <;> rfl
+  · intro ops
+    exact (WF_run (WF_init sg) ops).unconfused
+
+/-! ## 8. non-vacuity -/
+
+/-- argument / callback / predicate kinds: 0 none, 1 int, 2 std::string, 3 Big, 4 long, 5 short;
+    prototypes: 0 `void()`, 1 `void(int)`, 2 `void(const std::string&)`, 3 `void(const Big&)`,
+    4 `void(long)`.  int / long / short convert into each other, everything else only matches
+    itself.  (Predicate kind 9 is a generic lambda, callable with every prototype.) -/
+def conv : Nat → Nat → Bool
+  | 0, 0 => true
+  | 1, 1 => true
+  | 1, 4 => true
+  | 4, 1 => true
+  | 4, 4 => true
+  | 5, 1 => true
+  | 5, 4 => true
+  | 2, 2 => true
+  | 3, 3 => true
+  | _, _ => false
+
+def realSig : Sig where
+  nproto := 5
+  cbOk := fun kind p => conv kind p
+  argOk := fun p kind => conv kind p
+  -- predicate kind 9: a generic lambda, callable with every prototype
+  predOk := fun f p => f == 9 || conv f p
+
+/-- listeners of kinds int, string, long, Big on event 1; `dispatch(1, long 7)` -/
+def demoOps : List HOp :=
+  [.listen 1 1 101, .listen 1 2 201, .listen 1 4 401, .listen 1 3 301, .dispatch 1 4 7,
+   .enqueue 1 2 10, .enqueue 1 1 11, .enqueue 1 3 12]
+
+/-- The `long` argument selects `void(int)` (prototype 1, the first callable one) and reaches the
+    `int` and the `long` callback — both bound to prototype 1 — in order, once each, and neither the
+    `string` nor the `Big` callback.  The three enqueued events are filed under prototypes 2, 1, 3.
+    `processIf` with an `int` predicate accepting everything examines and dispatches only the
+    prototype-1 event; the string and Big events stay, in order. -/
+example :
+    (run realSig {} demoOps).2 =
+      [.res "h0", .res "h1", .res "h2", .res "h3",
+       .call 1 1 0 101 4 7, .call 1 1 2 401 4 7, .res "unit",
+       .res "unit", .res "unit", .res "unit"] ∧
+    (run realSig {} demoOps).1.queue =
+      [⟨0, 1, 2, 2, 10⟩, ⟨1, 1, 1, 1, 11⟩, ⟨2, 1, 3, 3, 12⟩] ∧
+    (run realSig {} (demoOps ++ [.processIf 1 1 0])).2.drop 10 =
+      [.pred 1 1 11, .call 1 1 0 101 1 11, .call 1 1 2 401 1 11, .res "true"] ∧
+    (run realSig {} (demoOps ++ [.processIf 1 1 0])).1.queue =
+      [⟨0, 1, 2, 2, 10⟩, ⟨2, 1, 3, 3, 12⟩] := by
+  decide +kernel
+
+/-- A `string` predicate rejecting the value: only the string event is examined, nothing is
+    dispatched, the queue is unchanged; then `processOne` consumes the oldest event (the string
+    one, reaching the string callback only) and `process` the remaining two in FIFO order. -/
+example :
+    (run realSig {} (demoOps ++ [.processIf 2 2 1, .processOne, .process])).2.drop 10 =
+      [.pred 2 2 10, .res "false",
+       .call 1 2 1 201 2 10, .res "true",
+       .call 1 1 0 101 1 11, .call 1 1 2 401 1 11, .call 1 3 3 301 3 12, .res "true"] ∧
+    (run realSig {} (demoOps ++ [.processIf 2 2 1, .processOne, .process])).1.queue = [] := by
+  decide +kernel
+
+/-- A generic predicate (callable with every prototype) accepting even values: the passes run in
+    listed prototype order — `void()` has no event, the `int` event 11 is examined and rejected,
+    the `string` event 10 is examined, accepted, removed and dispatched to the string callback;
+    that pass dispatched something, so `processIf` stops: the `Big` event is not examined.  The
+    `int` and `Big` events stay in place, in order. -/
+example :
+    (run realSig {} (demoOps ++ [.processIf 9 2 0])).2.drop 10 =
+      [.pred 9 1 11, .pred 9 2 10, .call 1 2 1 201 2 10, .res "true"] ∧
+    (run realSig {} (demoOps ++ [.processIf 9 2 0])).1.queue =
+      [⟨1, 1, 1, 1, 11⟩, ⟨2, 1, 3, 3, 12⟩] := by
+  decide +kernel
+
+end Evp.Heter
